@@ -13,6 +13,7 @@ import Qryn.Proofs.PromSelect
 import Qryn.Proofs.ProfSelector
 import Qryn.Prof.SelectorCtx
 import Qryn.Proofs.ConfineTempo
+import Qryn.Gen.VersionSites
 /-! # C13 — every read is confined to the requested time window and signal type
 
 `Confine.confined` is a structural predicate on statements (every base-table scan carries timestamp
@@ -464,5 +465,46 @@ def cexCfg : Cfg :=
 example : SearchCfg cexCfg cexReq := by constructor <;> decide
 example : searchConfined cexCfg (winSearch cexReq) (planSearch cexReq [(v2name, 86400)]) = true :=
   tempo_search_confined _ _ _ (by constructor <;> decide) (by decide) (by decide)
+
+end Qryn.C13
+
+namespace Qryn.C13
+/-- **version_gates_inventory.** Every place under reader/ where the version state decides something (regenerated: each
+    call of `IsVersionSupported`, each other read of a `VersionInfo` field; code inside comments — the turned-off v5
+    branch of `GetLabelMatchersDownsampleRequest` — is not code): exactly the six gates of `SQLIndexQuery.String`, all on
+    `tempo_v2` and the request window, which `Tempo.tagSel` (timestamp column; lower, upper timestamp bound; minimal, maximal
+    duration) and `Tempo.idxQuery` (ORDER BY + LIMIT) have; no planner of another endpoint reads the version state, so
+    their models need no version parameter. The decision expression is the one `Tempo.isVersionSupported` mirrors. -/
+theorem version_gates_inventory :
+    Qryn.Gen.versionGates = List.replicate 6 ("reader/tempo/sqlIndexQuery.go", "String", "tempo_v2", "s.FromNS", "s.ToNS") ∧
+    Qryn.Gen.versionInfoReads = [] ∧
+    Qryn.Gen.versionDecision = "ok && (fromNS >= (time * 1000000000))" := by decide
+end Qryn.C13
+
+/-! ## trace by id, legacy tag names / values (reader/service/tempoService.go), tied by the `model-tempo-legacy` stream -/
+namespace Qryn.C13
+open Qryn Qryn.Sql Qryn.Confine Qryn.Tempo
+
+/-- **tempo_trace_by_id_confined.** `GetQueryRequest` for a request that names both ends (`start`, `end` ≠ 0): the span
+    table is read with `timestamp_ns >= start` and `< end` (and the trace id), the outer select only re-orders that result.
+    Both table layouts. Without `start` / `end` no window was asked for and the statement carries no bound for that end. -/
+theorem tempo_trace_by_id_confined (cfg : Cfg) (q : QueryReq)
+    (h1 : cfg.kind q.tracesTable = .data) (h2 : cfg.kind q.tracesDistTable = .data)
+    (hs : q.startNs ≠ 0) (he : q.endNs ≠ 0) : confined cfg (winQuery q) (queryRequest q) = true :=
+  queryRequest_confined cfg q h1 h2 hs he
+
+/-- **tempo_legacy_tags_unwindowed.** `GET /api/search/tags` and `/api/search/tag/{tag}/values` take no window (the windowed
+    forms are the V2 endpoints, `all_scans_confined_traceql_tags/_values`); their statements read the key/value table with
+    no comparison on the date column at all — whole table, nothing cut off. Explicitly outside "confined to the window". -/
+theorem tempo_legacy_tags_unwindowed (kv : String) (tag : Bytes) :
+    conjuncts (whereOf (tagsRequest kv)) = [] ∧
+    (∀ e ∈ conjuncts (whereOf (valuesRequest kv tag)), mentionsDate e = false) := by
+  refine ⟨rfl, ?_⟩
+  intro e he
+  have : conjuncts (whereOf (valuesRequest kv tag)) = [eq (.raw "key") (.str tag)] :=
+    conjuncts_and_flat _ (by intro e he; simp only [List.mem_singleton] at he; subst he; exact splice_logical _ _ (by decide))
+  rw [this, List.mem_singleton] at he
+  subst he
+  simp [mentionsDate, eq, isDateCol]
 
 end Qryn.C13
